@@ -1,13 +1,101 @@
 import Driver.Common
 import Log4rsModel.Literals.Spec
+import Log4rsModel.Literals.DurationSpec
+/-
+C20 driver. Case forms: see harness/src/c20.rs. For every case it answers
+  * the model's observation (`parseSize` / `parseInterval` / `parseRefresh` on the scalar the case denotes);
+  * the Spec verdict on the implementation's observation. For the forms that carry the generator's
+    INTENT (`int`, `lit`, `spans`, `other`, and the resolved scalar of `plain` when it is an integer)
+    the expected observation is computed from the intent by arithmetic only — no text is parsed and
+    no table of the model is used (`sizeWords`/`timeWords`/`refreshUnits` below are the statement's
+    lists, the exponent of a size unit is its position); for raw strings (`str`, and `plain`
+    resolving to a string) it is the executable `specSize`/`specInterval`/`expectRefresh`.
+-/
 namespace Driver.C20
-open Log4rs.Proto Log4rs.Literals Driver
+open Log4rs.Proto Log4rs.Literals Log4rs.Literals.Dur Log4rs Driver
 
-def decScalar (form payload : String) : Option Scalar :=
-  match form with
-  | "int" => (decInt payload).map Scalar.int
-  | "str" => (decStr payload).map Scalar.str
-  | "other" => some Scalar.other
+/-- the statement's unit words; the power of 1024 of entry `i` is `(i+1)/2` -/
+def sizeWords : List String := ["b", "kb", "kib", "mb", "mib", "gb", "gib", "tb", "tib"]
+/-- singular, plural; entry `i` names unit `i/2` -/
+def timeWords : List String :=
+  ["second", "seconds", "minute", "minutes", "hour", "hours", "day", "days", "week", "weeks", "month", "months",
+   "year", "years"]
+def timeNames : List String := ["second", "minute", "hour", "day", "week", "month", "year"]
+/-- humantime's suffixes: word, sub-second?, multiplier in the unit's own resolution -/
+def refreshUnits : List (String × Bool × Nat) :=
+  [ ("nanos", true, 1), ("nsec", true, 1), ("ns", true, 1),
+    ("usec", true, 1000), ("us", true, 1000), ("µs", true, 1000),
+    ("millis", true, 1000000), ("msec", true, 1000000), ("ms", true, 1000000),
+    ("seconds", false, 1), ("second", false, 1), ("secs", false, 1), ("sec", false, 1), ("s", false, 1),
+    ("minutes", false, 60), ("minute", false, 60), ("min", false, 60), ("mins", false, 60), ("m", false, 60),
+    ("hours", false, 3600), ("hour", false, 3600), ("hr", false, 3600), ("hrs", false, 3600), ("h", false, 3600),
+    ("days", false, 86400), ("day", false, 86400), ("d", false, 86400),
+    ("weeks", false, 604800), ("week", false, 604800), ("wk", false, 604800), ("wks", false, 604800), ("w", false, 604800),
+    ("months", false, 2630016), ("month", false, 2630016), ("M", false, 2630016),
+    ("years", false, 31557600), ("year", false, 31557600), ("yr", false, 31557600), ("yrs", false, 31557600),
+    ("y", false, 31557600) ]
+
+def ROLL_MAX : Nat := 2048
+
+def applyMask (w : List Char) (mask : Nat) : List Char :=
+  (w.zipIdx).map (fun (c, i) => if (mask >>> i) % 2 = 1 then c.toUpper else c)
+
+def zeros (z : Nat) : List Char := List.replicate z '0'
+
+def allDigits (s : String) : Bool := !s.isEmpty && s.toList.all Log4rs.Str.isAsciiDigit
+
+structure Lit where
+  n : Nat
+  text : List Char          -- the composed literal
+  unitIdx : Option Nat
+  mutated : Option String   -- the reject reason, if the intent is an invalid literal
+  wsBetween : Bool
+
+def decLit (kind : String) (f : List String) : Option Lit :=
+  match f with
+  | [n, z, ws, unit, mask, ws2, mu] =>
+    if !allDigits n then none else
+    match n.toNat?, z.toNat?, decStr ws, mask.toNat?, decStr ws2 with
+    | some nv, some zv, some wsv, some maskv, some ws2v =>
+      if !(wsv.all Log4rs.Str.isWhitespace && ws2v.all Log4rs.Str.isWhitespace) then none else
+      let words := if kind = "size" then sizeWords else timeWords
+      let unit? : Option (Option Nat) :=
+        if unit = "-" then some none else
+        match unit.toNat? with
+        | some i => if i < words.length then some (some i) else none
+        | none => none
+      match unit? with
+      | none => none
+      | some ui =>
+        let number := zeros zv ++ n.toList
+        let word := match ui with
+          | some i => applyMask (words.getD i "").toList maskv
+          | none => []
+        let plainText := number ++ wsv ++ word ++ ws2v
+        let mk (t : List Char) (m : Option String) : Option Lit :=
+          some { n := nv, text := t, unitIdx := ui, mutated := m, wsBetween := !wsv.isEmpty }
+        if mu = "-" then
+          -- a bare number followed by white space only is not a literal (reading decision, Spec.lean)
+          mk plainText (if ui.isNone ∧ !(wsv.isEmpty ∧ ws2v.isEmpty) then some "ws-only-rest" else none)
+        else if mu = "neg" then mk ('-' :: plainText) (some "negative")
+        else if mu = "plus" then mk ('+' :: plainText) (some "sign")
+        else if mu.startsWith "frac." then
+          let d := (mu.drop 5).toString
+          if allDigits d then mk (number ++ ['.'] ++ d.toList ++ wsv ++ word ++ ws2v) (some "fraction") else none
+        else if mu.startsWith "lead." then
+          match decStr (mu.drop 5).toString with
+          | some l => if l.isEmpty then none else mk (l ++ plainText) (some "leading")
+          | none => none
+        else if mu.startsWith "gap." then
+          match decStr (mu.drop 4).toString with
+          | some g => if g.isEmpty then none else mk (number ++ wsv ++ g ++ word ++ ws2v) (some "gap")
+          | none => none
+        else if mu.startsWith "sfx." then
+          match decStr (mu.drop 4).toString with
+          | some x => if x.isEmpty then none else mk (number ++ wsv ++ word ++ x ++ ws2v) (some "suffix")
+          | none => none
+        else none
+    | _, _, _, _, _ => none
   | _ => none
 
 def renderSize : Option Nat → String
@@ -18,42 +106,260 @@ def renderInterval : Option (TUnit × Int) → String
   | some (u, n) => "ok:" ++ u.name ++ ":" ++ toString n
   | none => "err"
 
-def tagsOf (sc : Scalar) (accepted : Bool) : List String :=
-  let form := match sc with
-    | .int n => if n < 0 then "int-neg" else if n.toNat > I64_MAX then "int-big" else "int"
-    | .str s =>
-      let ds := s.takeWhile Log4rs.Str.isAsciiDigit
-      let rest := s.dropWhile Log4rs.Str.isAsciiDigit
-      if ds.isEmpty then "str-nodigit" else if rest.isEmpty then "str-bare"
-      else if rest.any Log4rs.Str.isWhitespace then "str-unit-ws" else "str-unit"
-    | .other => "other"
-  [form, if accepted then "accept" else "reject"]
+def renderOutcome {α} (f : Option α → String) : Outcome Err α → String
+  | .ok a => f (some a)
+  | .err _ => f none
+  | .panic _ => "PANIC"
 
-/-- signature of a spec failure, used by the known-findings classifier -/
-def signature (kind : String) (sc : Scalar) : String :=
-  match kind, sc with
-  | "interval", .int n => if n.toNat > I64_MAX ∧ 0 ≤ n then "C20/interval-int-above-i64max" else "C20/interval-int"
-  | k, .int _ => "C20/" ++ k ++ "-int"
-  | k, .str _ => "C20/" ++ k ++ "-str"
-  | k, .other => "C20/" ++ k ++ "-other"
+def renderDur : R Dur → String
+  | .ok d => "ok:" ++ toString d.secs ++ ":" ++ toString d.nanos
+  | .err _ => "err"
+  | .panic _ => "PANIC"
+
+def decResolved (rform payload : String) : Option Visit :=
+  match rform with
+  | "u64" => match payload.toNat? with
+    | some v => if h : v < 2 ^ 64 then some (.u64 v h) else none
+    | none => none
+  | "i64" => match payload.toInt? with
+    | some v => if h : -(2 ^ 63 : Int) ≤ v ∧ v < 2 ^ 63 then some (.i64 v h) else none
+    | none => none
+  | "str" => (decStr payload).map Visit.str
+  | "other" => some .other
+  | _ => none
+
+/-- the rolling run: a size limit of at most `ROLL_MAX` bytes is also exercised — the record that makes
+the file exactly `limit` bytes long must not roll (0), one more byte must (1) -/
+def withRoll (roll : Bool) (obs : String) (v : Option Nat) : String :=
+  match v with
+  | some n => if roll ∧ n ≤ ROLL_MAX then obs ++ " roll=01" else obs
+  | none => obs
+
+def edgeTags (value limit step : Nat) : List String :=
+  if limit ≤ value + 2 * step ∧ value < limit then ["edge:below"]
+  else if limit ≤ value ∧ value < limit + step then ["edge:at"]
+  else if limit + step ≤ value ∧ value < limit + 3 * step then ["edge:above"]
+  else []
+
+structure Verdict where
+  model : String
+  expected : String          -- what the statement demands of the observation
+  sig : String
+  tags : List String
+
+def finishV (kind : String) (implObs : String) (v : Verdict) : Answer :=
+  { model := v.model,
+    spec := if implObs = v.expected then "ok"
+            else "FAIL:" ++ kind ++ " expected " ++ v.expected ++ ";sig=" ++ v.sig,
+    tags := kind :: v.tags }
+
+/-- tags of a raw string, by the shape of the text -/
+def strTags (s : List Char) : List String :=
+  let ds := s.takeWhile Log4rs.Str.isAsciiDigit
+  let rest := s.dropWhile Log4rs.Str.isAsciiDigit
+  if ds.isEmpty then ["str-nodigit"] else if rest.isEmpty then ["str-bare"]
+  else if rest.all Log4rs.Str.isWhitespace then ["str-ws-only-rest"]
+  else if rest.any Log4rs.Str.isWhitespace then ["str-unit-ws"] else ["str-unit"]
+
+def acceptTag {α} (o : Option α) : String := if o.isSome then "accept" else "reject"
+
+/-- size / interval on a scalar with the executable Spec -/
+def onScalar (kind : String) (sc : Visit) (roll : Bool) (sigTail : String) (tags : List String) : Verdict :=
+  if kind = "size" then
+    let sp := specSize sc
+    { model := withRoll roll (renderOutcome renderSize (visitSize sc)) (toOpt (visitSize sc)),
+      expected := withRoll roll (renderSize sp) sp,
+      sig := "C20/size-" ++ sigTail, tags := acceptTag sp :: tags }
+  else
+    let sp := specInterval sc
+    { model := renderOutcome renderInterval (visitInterval sc), expected := renderInterval sp,
+      sig := "C20/interval-" ++ sigTail, tags := acceptTag sp :: tags }
+
+def trivialSmall (n : Nat) (tags : List String) : List String :=
+  if n < 1000 then "trivial" :: tags else tags
+
+def handleTrigger (kind : String) (rest : List String) (implObs : String) : Answer :=
+  match rest with
+  | ["int", tok] =>
+    match tok.toInt? with
+    | none => badCase "int"
+    | some n =>
+      let sc := (Scalar.int n).visit
+      -- intent: a bare number means bytes / seconds; negative and out-of-range values are rejected
+      let limit : Nat := if kind = "size" then 2 ^ 64 else 2 ^ 63
+      let accepted := 0 ≤ n ∧ n.toNat < limit
+      let expected :=
+        if kind = "size" then
+          withRoll true (if accepted then "ok:" ++ toString n.toNat else "err") (if accepted then some n.toNat else none)
+        else if accepted then "ok:second:" ++ toString n.toNat else "err"
+      let model (s : Visit) : String :=
+        if kind = "size" then withRoll true (renderOutcome renderSize (visitSize s)) (toOpt (visitSize s))
+        else renderOutcome renderInterval (visitInterval s)
+      -- every TOML integer arrives through `visit_i64`: both routes must give the same answer
+      let m := model sc
+      let m := match (Scalar.int n).visitToml with
+        | some t => if model t = m then m else "MODEL-LEGS-DISAGREE jy=" ++ m ++ " toml=" ++ model t
+        | none => m
+      let form := if n < 0 then (if n < -(2 ^ 63 : Int) then "int-below-i64" else "int-neg")
+        else if n.toNat ≥ 2 ^ 64 then "int-above-u64" else if n.toNat ≥ 2 ^ 63 then "int-above-i64" else "int"
+      let sg := if kind = "interval" ∧ 0 ≤ n ∧ n.toNat > I64_MAX ∧ n.toNat ≤ U64_MAX then "C20/interval-int-above-i64max"
+        else "C20/" ++ kind ++ "-int"
+      let tags := [form, if accepted then "accept" else "reject"] ++ edgeTags n.toNat limit 1 ++
+          (if accepted ∧ n.toNat < 1000 ∧ n.toNat > 10 then ["trivial"] else [])
+      finishV kind implObs (Verdict.mk m expected sg tags)
+  | ["str", enc] =>
+    match decStr enc with
+    | none => badCase "str"
+    | some s => finishV kind implObs (onScalar kind (.str s) true "str" (strTags s))
+  | "lit" :: f =>
+    match decLit kind f with
+    | none => badCase "lit"
+    | some l =>
+      let sc := Visit.str l.text
+      -- intent oracle: number x 1024^k below 2^64 / number below 2^63 with the named unit
+      let (expected, acc, tags) : String × Bool × List String :=
+        match l.mutated with
+        | some why => ("err", false, ["reject:" ++ why])
+        | none =>
+          if kind = "size" then
+            let k := match l.unitIdx with | some i => (i + 1) / 2 | none => 0
+            let v := l.n * 1024 ^ k
+            let ok := v < 2 ^ 64
+            (withRoll true (if ok then "ok:" ++ toString v else "err") (if ok then some v else none), ok,
+              (if ok then [] else ["reject:overflow"]) ++ edgeTags v (2 ^ 64) (1024 ^ k))
+          else
+            let name := match l.unitIdx with | some i => timeNames.getD (i / 2) "?" | none => "second"
+            let ok := l.n < 2 ^ 63
+            (if ok then "ok:" ++ name ++ ":" ++ toString l.n else "err", ok,
+              (if ok then [] else ["reject:overflow"]) ++ edgeTags l.n (2 ^ 63) 1)
+      let unitTag := match l.unitIdx with
+        | some i => "unit:" ++ (if kind = "size" then sizeWords else timeWords).getD i "?"
+        | none => "unit:none"
+      let model :=
+        if kind = "size" then withRoll true (renderOutcome renderSize (visitSize sc)) (toOpt (visitSize sc))
+        else renderOutcome renderInterval (visitInterval sc)
+      let allTags := ["lit", unitTag, if acc then "accept" else "reject", if l.wsBetween then "ws" else "no-ws"] ++ tags ++
+          (if acc ∧ l.unitIdx.isNone ∧ l.n < 1000 then ["trivial"] else [])
+      finishV kind implObs (Verdict.mk model expected ("C20/" ++ kind ++ "-lit") allTags)
+  | ["other", what] =>
+    if ["null", "float", "ifloat", "efloat", "bool", "seq", "map"].contains what then
+      finishV kind implObs { (onScalar kind .other false "other" ["other", "reject:type"]) with expected := "err" }
+    else badCase "other"
+  | ["plain", fmt, text, rform, payload] =>
+    if !["yaml", "json", "toml"].contains fmt then badCase "fmt" else
+    match decStr text, decResolved rform payload with
+    | some _, some sc =>
+      finishV kind implObs (onScalar kind sc (fmt = "yaml") ("plain-" ++ rform) ["plain", "plain:" ++ fmt, "plain:" ++ rform])
+    | _, _ => badCase "plain"
+  | _ => badCase "form"
+
+/-- refresh_rate: verdict from an expectation -/
+def refreshVerdict (implObs : String) (e : Expect) (exactlyMax : Bool) : String :=
+  let okStr (s n : Nat) := "ok:" ++ toString s ++ ":" ++ toString n
+  if implObs = "PANIC" then
+    "FAIL:refresh_rate panics instead of reporting an error;sig=" ++
+      (if exactlyMax then "C20/refresh-sum-exactly-2^64-seconds-panics" else "C20/refresh-panic")
+  else match e with
+    | .unclaimed => if implObs = "err" ∨ implObs.startsWith "ok:" ∨ implObs = "none" then "ok" else "FAIL:refresh observation;sig=C20/refresh-observation"
+    | .reject => if implObs = "err" then "ok" else "FAIL:refresh expected err;sig=C20/refresh-junk-or-overflow-accepted"
+    | .accept s n => if implObs = okStr s n then "ok" else "FAIL:refresh expected " ++ okStr s n ++ ";sig=C20/refresh-value"
+    | .either s n => if implObs = "err" ∨ implObs = okStr s n then "ok" else "FAIL:refresh expected err or " ++ okStr s n ++ ";sig=C20/refresh-value"
+
+def expectTag : Expect → String
+  | .accept _ _ => "accept" | .reject => "reject" | .either _ _ => "either" | .unclaimed => "unclaimed"
+
+structure Span where
+  n : Nat
+  text : List Char
+  sub : Bool
+  mult : Nat
+
+def decSpan (s : String) : Option Span :=
+  match splitOnChar ';' s with
+  | [n, z, ws, unit, sep] =>
+    if !allDigits n then none else
+    match n.toNat?, z.toNat?, decStr ws, unit.toNat?, decStr sep with
+    | some nv, some zv, some wsv, some ui, some sepv =>
+      if !(wsv.all Log4rs.Str.isWhitespace && sepv.all Log4rs.Str.isWhitespace) then none else
+      match refreshUnits[ui]? with
+      | some (w, sub, mult) => some { n := nv, text := zeros zv ++ n.toList ++ wsv ++ w.toList ++ sepv, sub, mult }
+      | none => none
+    | _, _, _, _, _ => none
+  | _ => none
+
+/-- the statement on spans given by intent (number, multiplier): arithmetic only -/
+def expectIntent (spans : List Span) : Expect × Bool :=
+  let nanosOf (p : Span) : Nat := if p.sub then p.n * p.mult else p.n * p.mult * 1000000000
+  let tot := (spans.map nanosOf).sum
+  let e : Expect :=
+    if spans.any (fun p => decide (p.n ≥ 2 ^ 64) || decide (p.n * p.mult ≥ 2 ^ 64)) then .reject
+    else if tot ≥ 2 ^ 64 * 1000000000 then .reject
+    else if spans.all (fun p => !p.sub || decide (p.n * p.mult + 1000000000 ≤ 2 ^ 64)) then
+      .accept (tot / 1000000000) (tot % 1000000000)
+    else .either (tot / 1000000000) (tot % 1000000000)
+  (e, tot = 2 ^ 64 * 1000000000)
+
+/-- does some prefix of the text read as spans that sum to exactly 2^64 seconds? (names the input
+class of the `Duration::new` panic for raw strings) -/
+def prefixSumsToMax (s : List Char) : Bool :=
+  (List.range (s.length + 1)).any (fun k =>
+    let p := s.take k
+    if p.any (· = '.') then false else
+    match durRead (p.length + 1) p with
+    | some spans => total spans = 2 ^ 64 * NPS
+    | none => false)
+
+def handleRefresh (rest : List String) (implObs : String) : Answer :=
+  match rest with
+  | ["spans", field] =>
+    match mapM? decSpan (splitOnChar ',' field) with
+    | none => badCase "spans"
+    | some spans =>
+      let text := spans.flatMap (·.text)
+      let (e, mx) := expectIntent spans
+      { model := renderDur (parseRefresh text), spec := refreshVerdict implObs e mx,
+        tags := ["refresh", "spans", "spans:" ++ (if spans.length ≥ 3 then "3+" else toString spans.length), expectTag e] ++
+          (if mx then ["sum=2^64s"] else []) ++ (if spans.any (·.sub) then ["sub-second"] else []) }
+  | ["str", enc] =>
+    match decStr enc with
+    | none => badCase "str"
+    | some s =>
+      let e := expectRefresh s
+      let mx := prefixSumsToMax s
+      { model := renderDur (parseRefresh s),
+        spec := refreshVerdict implObs e mx,
+        tags := ["refresh", "str", expectTag e] ++ (if s.any (· = '.') then ["fraction"] else []) ++
+          (if mx then ["sum=2^64s"] else []) }
+  | ["int", tok] =>
+    match tok.toInt? with
+    | none => badCase "int"
+    | some _ =>
+      -- `de_duration` has `visit_str` only
+      { model := "err", spec := refreshVerdict implObs .unclaimed false, tags := ["refresh", "int", "unclaimed"] }
+  | ["other", what] =>
+    if ["null", "float", "ifloat", "efloat", "bool", "seq", "map"].contains what then
+      { model := if what = "null" then "none" else "err",
+        spec := if what = "null" then (if implObs = "none" then "ok" else "FAIL:refresh null;sig=C20/refresh-null")
+                else refreshVerdict implObs .reject false,
+        tags := ["refresh", "other"] }
+    else badCase "other"
+  | ["plain", fmt, text, rform, payload] =>
+    if !["yaml", "json", "toml"].contains fmt then badCase "fmt" else
+    match decStr text, decResolved rform payload with
+    | some _, some (Visit.str s) =>
+      { model := renderDur (parseRefresh s), spec := refreshVerdict implObs (expectRefresh s) false,
+        tags := ["refresh", "plain", "plain:str"] }
+    | some _, some _ =>
+      { model := "err", spec := refreshVerdict implObs .unclaimed false, tags := ["refresh", "plain", "unclaimed"] }
+    | _, _ => badCase "plain"
+  | _ => badCase "form"
 
 def handle : Handler := fun cas obs =>
   match cas, obs with
-  | [kind, form, payload], [implObs] =>
-    match decScalar form payload with
-    | none => badCase "scalar"
-    | some sc =>
-      if kind = "size" then
-        let model := renderSize (exceptToOption (parseSize sc))
-        let spec := renderSize (specSize sc)
-        { model, spec := if implObs = spec then "ok" else "FAIL:size expected " ++ spec ++ ";sig=" ++ signature kind sc,
-          tags := "size" :: tagsOf sc (specSize sc).isSome }
-      else if kind = "interval" then
-        let model := renderInterval (exceptToOption (parseInterval sc))
-        let spec := renderInterval (specInterval sc)
-        { model, spec := if implObs = spec then "ok" else "FAIL:interval expected " ++ spec ++ ";sig=" ++ signature kind sc,
-          tags := "interval" :: tagsOf sc (specInterval sc).isSome }
-      else badCase "kind"
+  | kind :: rest, [implObs] =>
+    if kind = "size" ∨ kind = "interval" then handleTrigger kind rest implObs
+    else if kind = "refresh" then handleRefresh rest implObs
+    else badCase "kind"
   | _, _ => badCase "arity"
 
 end Driver.C20
